@@ -242,9 +242,24 @@ impl Subscription {
                             ctx_field.set_error_path(err.into_server_error(ctx_field.item.pos))
                         })?;
 
-                        while let Some(value) = stream.next().await.transpose().map_err(|err| {
-                            ctx_field.set_error_path(err.into_server_error(ctx_field.item.pos))
-                        })? {
+                        while let Some(value) = stream.next().await {
+                            let value = match value {
+                                Ok(value) => value,
+                                Err(err) => {
+                                    let err = ctx_field
+                                        .set_error_path(err.into_server_error(ctx_field.item.pos));
+                                    if !field_type.is_nullable() {
+                                        return Err(err);
+                                    }
+                                    // a failing event nulls the nullable root field only
+                                    let mut map = IndexMap::new();
+                                    map.insert(field_name.clone(), Value::Null);
+                                    let mut resp = Response::new(Value::Object(map));
+                                    resp.errors.push(err);
+                                    yielder.yield_ok(resp).await;
+                                    continue;
+                                }
+                            };
                             let f = |execute_data: Option<Data>| {
                                 let schema = schema.clone();
                                 let field_name = field_name.clone();
@@ -285,7 +300,7 @@ impl Subscription {
                                         .resolve(ri, &mut resolve_fut)
                                         .await;
 
-                                    match value {
+                                    let mut resp = match value {
                                         Ok(value) => {
                                             let mut map = IndexMap::new();
                                             map.insert(
@@ -295,7 +310,12 @@ impl Subscription {
                                             Response::new(Value::Object(map))
                                         }
                                         Err(err) => Response::from_errors(vec![err]),
-                                    }
+                                    };
+                                    // errors recorded at nullable positions while resolving this event
+                                    resp.errors.extend(std::mem::take(
+                                        &mut *ctx_field.query_env.errors.lock().unwrap(),
+                                    ));
+                                    resp
                                 }
                             };
                             let resp = ctx_field
@@ -303,7 +323,8 @@ impl Subscription {
                                 .extensions
                                 .execute(ctx_field.query_env.operation_name.as_deref(), f)
                                 .await;
-                            let is_err = !resp.errors.is_empty();
+                            // only an error that nulled the whole data ends the stream
+                            let is_err = resp.data == Value::Null;
                             yielder.yield_ok(resp).await;
                             if is_err {
                                 break;
